@@ -448,6 +448,12 @@ static void do_op (char *op)
   else if (!strcmp (a[0], "nat")) { if (n_nat < 8) { nat_priv[n_nat] = mkaddr (a[1], 0); nat_pub[n_nat] = mkaddr (a[2], 0); n_nat++; T ("net nat %s %s", a[1], a[2]); } }
   else if (!strcmp (a[0], "servermode")) { strncpy (servers[I (1)].mode, a[2], 31); }
   else if (!strcmp (a[0], "stun")) { g_object_set (A[I (1)].agent, "stun-server", a[2], "stun-server-port", (guint) I (3), NULL); T ("api %d stun-server %s:%s", I (1), a[2], a[3]); }
+  else if (!strcmp (a[0], "relayname")) { /* relayname,i,s,c,port : TURN server given by HOST NAME (this machine's name -> 127.0.0.1), resolved asynchronously by GResolver */
+    char hn[256] = "localhost"; gethostname (hn, sizeof hn - 1);
+    gboolean r = nice_agent_set_relay_info (A[I (1)].agent, I (2), I (3), hn, I (4), "user", "pass", NICE_RELAY_TYPE_TURN_UDP);
+    T ("api %d set_relay_info %d %d name:%d =%d", I (1), I (2), I (3), I (4), r);
+    /* the resolver runs in a worker thread in real time: wait for its answer here, so that it lands at this point of virtual time */
+    for (int k = 0; k < 100; k++) { g_usleep (2000); while (g_main_context_iteration (ctx, FALSE)) { dispatch_count++; vnow_us++; } } }
   else if (!strcmp (a[0], "relay")) { gboolean r = nice_agent_set_relay_info (A[I (1)].agent, I (2), I (3), a[4], I (5), "user", "pass", NICE_RELAY_TYPE_TURN_UDP); T ("api %d set_relay_info %d %d %s:%s =%d", I (1), I (2), I (3), a[4], a[5], r); }
   else if (!strcmp (a[0], "restart") || !strcmp (a[0], "restart_stream")) { int i = I (1); guint sid = n > 2 ? I (2) : 1;
     gchar *u = NULL, *p = NULL; if (nice_agent_get_local_credentials (A[i].agent, sid, &u, &p)) { g_free (old_ufrag[i]); g_free (old_pwd[i]); old_ufrag[i] = u; old_pwd[i] = p; }
